@@ -31,7 +31,26 @@ def n_cases(tier):
     return 300 if tier == "quick" else 6000
 
 
+def _gen_big(rng):
+    """a class of 2**19 tie-free scored samples with a few easy ones: targets whose materialised threshold lies among the
+    last scored samples next to the easy ones are within 1e-5 (relative) of the end of the rescaled range"""
+    n = 2 ** 19
+    k, m = rng.choice([20, 50]), rng.choice([3, 7])
+    small = [0.25 + j for j in range(8)]
+    if rng.random() < 0.5:
+        pos, neg, nk = {"range": n, "off": 0.0}, small, k
+    else:
+        pos, neg, nk = small, {"range": n, "off": 0.0}, m
+    sc, ec = rng.choice(gen.CFGS)
+    cs = [1.5, 3.7, rng.choice([2.5, 4.2])]
+    rs = sorted(set([(nk + c) / (n + nk) for c in cs] + [1 - (nk + c) / (n + nk) for c in cs] + [rng.random(), 0.5]))
+    return {"stream": "generic", "pos": pos, "neg": neg, "k": k, "m": m, "sc": sc, "ec": ec, "ts": [3.5, 1000.25, float(n - 3)],
+            "rs": rs, "delta": 1.0, "big": n}
+
+
 def gen_one(rng, i, tier):
+    if i % 150 == 75:
+        return _gen_big(rng)
     stream = "exact" if i % 2 == 0 else "generic"
     pos, neg = gen.score_sets(rng, stream, nmin=1, allow_empty=False)
     if len(pos) > 40:
@@ -46,6 +65,8 @@ def gen_one(rng, i, tier):
 
 
 def nontrivial(inp):
+    if inp.get("big"):
+        return True
     return (inp["k"] + inp["m"] > 0) and ((inp["sc"], inp["ec"]) != ("pos", "pos")
                                           or len(set(inp["pos"])) < len(inp["pos"])
                                           or bool(set(inp["pos"]) & set(inp["neg"])) or inp["k"] * inp["m"] > 0)
@@ -59,7 +80,8 @@ def build(inp) -> Case:
     from score_analysis import Scores
 
     inp = dict(inp)
-    pos, neg, k, m, sc, ec = inp["pos"], inp["neg"], inp["k"], inp["m"], inp["sc"], inp["ec"]
+    pos, neg, k, m, sc, ec = (thr_common.expand_scores(inp["pos"]), thr_common.expand_scores(inp["neg"]), inp["k"], inp["m"],
+                              inp["sc"], inp["ec"])
     allv = pos + neg
     lo, hi = min(allv), max(allv)
     d = inp["delta"]
@@ -126,6 +148,8 @@ def build(inp) -> Case:
 def shrink_candidates(inp):
     for key in ("pos", "neg"):
         xs = inp[key]
+        if isinstance(xs, dict):
+            continue
         if len(xs) > 1:
             for i in range(len(xs)):
                 c = dict(inp); c[key] = xs[:i] + xs[i + 1:]; yield c
